@@ -15,6 +15,7 @@ from hypothesis import strategies as st
 
 from vlib.core import SubCheck, Violation, Outcome, exception_in_tree, short_tb
 from vlib import graphspec_ref as M
+from vlib import rd_graphs as R
 from vlib import graphs_gen as gg
 from vlib import cli
 
@@ -28,6 +29,8 @@ ASSUMPTIONS = [
     "torus with a side of length 1: the cycle of length 1 contributes no edge in a simple graph (torus 1 3 is the triangle); with a side 2 the cycle of length 2 is a single edge",
     "saved gml/dot files: vertices are numbered by increasing identifier, each side on its own for bipartite graphs; a file of a directed graph must be marked directed",
     "sizes: at most 9 vertices per side / 16 vertices for grids and trees; a defect that needs larger graphs is out of reach",
+    "position of `save`: the help texts (cnfgen --help-simple / --help-bipartite / --help-dag, docstring of cnfgen/clitools/graph_args.py) list `save` among the options that 'may follow' the construction or file, 'for reproducibility', storing 'the graph generated', and say nothing about its place among the modifiers: wherever it is written, the saved file must hold the final graph, the one the formula is built from",
+    "graphs read from files: the files are written by the harness (vlib/rd_graphs.py writers; gml/dot documents with identifiers 1..N, left side first), at most 7 vertices / 4 per side; file names never contain a newline (the unchanged tree copies the file name into the comment line of a saved kthlist file, which a newline breaks) and, for a bipartite graph saved as dot, never a double quote (the unchanged tree copies the file name into the graph id of the DOT file without escaping it: `cnfgen php 'a\"b.matrix' save out.dot` writes a DOT file that cannot be parsed; reported, not checked); non-ASCII letters in the comment lines of saved kthlist/dimacs files are ignored by the reference readers; the digraph type has no formula on the command line and is only reached through make_graph_from_spec",
 ]
 
 _TMP = {}
@@ -77,10 +80,18 @@ def _dot_missing(fmt):
     return not has_dot_library()
 
 
+def _parse(gtype, tokens):
+    """M.parse_spec, also for a graph read from a file: `<format> <file> options...` is read as the
+    construction '<file>' (the file name alone is already read that way)"""
+    if len(tokens) >= 2 and tokens[0] in M.FORMATS[gtype] and tokens[0] not in M.CONSTRUCTIONS[gtype]:
+        return M.parse_spec(gtype, list(tokens[1:]))
+    return M.parse_spec(gtype, tokens)
+
+
 def _realize(gtype, tokens, tmp, tag):
     """tokens with the file of every `save` placed in the scratch directory; list of (fmt, path)
     of the files a well formed `save` announces"""
-    S = M.parse_spec(gtype, tokens)
+    S = _parse(gtype, tokens)
     out = list(tokens)
     files = []
     i = 0
@@ -111,11 +122,46 @@ def _read_file(fmt, gtype, path, what):
             text = f.read()
     except FileNotFoundError:
         raise Violation("{}: `save` did not write the file".format(what))
+    except UnicodeDecodeError as e:
+        raise Violation("{}: the saved {} file is not UTF-8 text: {}".format(what, fmt, e))
+    shown = text
+    if fmt in ('kthlist', 'dimacs') and not text.isascii():
+        # the comment lines carry the name of the graph (with the name of the file it was read from):
+        # what they say is not part of the graph, the reference readers only know the plain alphabet
+        text = '\n'.join((''.join(ch if ' ' <= ch <= '~' else '?' for ch in l) if l[:1] == 'c' else l)
+                         for l in text.split('\n'))
     try:
         d, how = M.read_saved(fmt, gtype, text)
     except M.Mismatch as e:
-        raise Violation("{}: saved {} file: {} -- file: {!r}".format(what, fmt, e, text[:400]))
+        raise Violation("{}: saved {} file: {} -- file: {!r}".format(what, fmt, e, shown[:400]))
+    except Exception as e:      # noqa  (the third-party parsers fail in their own ways on a broken document)
+        raise Violation("{}: the saved {} file cannot be parsed ({}: {}) -- file: {!r}".format(
+            what, fmt, type(e).__name__, str(e)[:200], shown[:400]))
     return d, how
+
+
+def _tree_read(fmt, gtype, path, what, by_extension):
+    """The saved file given back to the tree as a graph argument (`<format> <file>`, or the file alone
+    when its extension tells the format): Desc of what comes out."""
+    import cnfgen.clitools.msg as msg
+    from cnfgen.clitools.graph_args import make_graph_from_spec
+    msg._prefix = ''
+    try:
+        H = make_graph_from_spec(gtype, [path] if by_extension else [fmt, path])
+    except Exception as e:      # noqa
+        try:
+            with open(path, encoding='utf-8', errors='replace') as f:
+                text = f.read()
+        except OSError:
+            text = ''
+        raise Violation("{}: the {} file written by `save` is refused when it is given back as a {} graph argument: "
+                        "{}: {} -- file: {!r}".format(what, fmt, gtype, type(e).__name__, str(e)[:200], text[:400]))
+    finally:
+        msg._prefix = ''
+    try:
+        return M.describe(H, gtype)
+    except M.Mismatch as e:
+        raise Violation("{}: the {} file written by `save`, read back: {}".format(what, fmt, e))
 
 
 def _cleanup(paths):
@@ -129,7 +175,20 @@ def _cleanup(paths):
 # ---------------------------------------------------------------------------
 # the two ways to obtain the graph of a specification
 
-def lib_builder(gtype, rseed, tmp):
+def _reread(fmt, gtype, path, what, d, rseed):
+    """labels; the file must come back through the tree's own reader as the graph d"""
+    if fmt is None or _dot_missing(fmt):
+        return []
+    by_ext = rseed % 2 == 0 and M.save_format(gtype, None, os.path.basename(path)) == fmt
+    back = _tree_read(fmt, gtype, path, what, by_ext)
+    if not back.same(d):
+        raise Violation("{}: the {} file written by `save`, given back as a graph argument, is {} but the graph "
+                        "in use is {}".format(what, fmt, back.show(), d.show()))
+    return ['reread-by-tree', 'reread-by-tree/' + fmt]
+
+
+def lib_builder(gtype, rseed, tmp, reread=False):
+    import cnfgen.clitools.msg as msg
     from cnfgen.clitools.graph_args import make_graph_from_spec
 
     def build(tokens, tag):
@@ -137,6 +196,7 @@ def lib_builder(gtype, rseed, tmp):
         S, real, files = _realize(gtype, tokens, tmp, tag)
         try:
             random.seed(rseed)
+            msg._prefix = ''
             try:
                 G = make_graph_from_spec(gtype, list(real))
             except ValueError as e:
@@ -158,6 +218,8 @@ def lib_builder(gtype, rseed, tmp):
                     raise Violation("{}: the {} file written by `save` holds {} but the graph returned is {}".format(
                         what, fmt, fd.show(), d.show()))
                 labels += ['saved', 'saved/{}/{}'.format(gtype, fmt), 'reader-' + how]
+                if reread:
+                    labels += _reread(fmt, gtype, path, what, d, rseed)
             return Obs(d, obj=G, labels=labels)
         finally:
             _cleanup(p for _, p in files)
@@ -182,7 +244,7 @@ def _library_formula(cmd, gtype, d):
     raise KeyError(cmd)
 
 
-def cli_builder(cmd, gtype, rseed, tmp):
+def cli_builder(cmd, gtype, rseed, tmp, reread=False):
     from cnfgen.clitools.cmdline import CLIError
 
     def build(tokens, tag):
@@ -219,6 +281,9 @@ def cli_builder(cmd, gtype, rseed, tmp):
             # the formula the sub-command builds is the library formula on the saved graph
             Flib = _library_formula(cmd, gtype, d)
             _same_formula(F, Flib, what, d)
+            if reread and own is None:
+                for fmt, p in good:
+                    labels += _reread(fmt, gtype, p, what, d, rseed)
             return Obs(d, formula=F, labels=labels)
         finally:
             _cleanup(p for _, p in files)
@@ -241,6 +306,64 @@ def _same_formula(A, B, what, d):
 
 # ---------------------------------------------------------------------------
 # the oracle
+
+def _chain(gtype, what, base_desc, base_tokens, mods, full, full_msg, build):
+    """Labels of the chain of step relations that explains `full` (Obs, or None when the whole specification
+    was refused with the message full_msg) from the graph base_desc of `base_tokens` through the modifiers
+    mods = [(name, numeric tokens)]; 'rejected' is among the labels when the refusal is the right answer.
+    Every step is observed through build(base_tokens + the modifiers so far) under the same seed."""
+    labels = []
+    def explain(order):
+        prev = base_desc
+        step_labels = []
+        for j, (name, nums) in enumerate(order):
+            status, vals, marks = M.step_validity(name, nums, prev)
+            step_labels += ['{}:{}'.format(name, m) for m in sorted(marks)]
+            if status == 'invalid':
+                if full is None:
+                    if 'just-outside' in marks:
+                        step_labels.append('just-outside-rejected')
+                    return None, step_labels + ['rejected']
+                return "`{} {}` cannot be applied to {} but the specification is accepted".format(
+                    name, ' '.join(nums), prev.show()), None
+            if status == 'gray' and full is None:
+                return None, step_labels + ['gray', 'gray-rejected', 'rejected']
+            prefix = base_tokens + [t for n, ns in order[:j + 1] for t in [n] + list(ns)]
+            try:
+                nxt = build(prefix, 'p{}'.format(j))
+            except Rejected as e:
+                return "`{}` is a legal request on {} but `{}` is refused: {!r}".format(
+                    ' '.join([name] + list(nums)), prev.show(), ' '.join(prefix), str(e).splitlines()[0]), None
+            try:
+                M.check_step(name, vals, prev, nxt.desc)
+            except M.Mismatch as e:
+                return str(e), None
+            if vals and any(v for v in vals):
+                step_labels.append('modifier-nonzero')
+            prev = nxt.desc
+        if full is None:
+            return "every step is a legal request but the specification is refused: {!r}".format(full_msg), None
+        if not full.desc.same(prev):
+            return "under the same seed the specification gives {} but its modifiers applied one by one give {}".format(
+                full.desc.show(), prev.show()), None
+        return None, step_labels
+
+    documented = sorted(mods, key=lambda x: M.MODIFIERS[gtype].index(x[0]))
+    orders = [documented] + [list(p) for p in itertools.permutations(documented) if list(p) != documented]
+    first_msg = None
+    for i, order in enumerate(orders):
+        msg, step_labels = explain(order)
+        if msg is None:
+            labels += step_labels
+            if i > 0:
+                labels.append('explained-by-another-order')
+            break
+        if first_msg is None:
+            first_msg = msg
+    else:
+        raise Violation("{} (generator seeded with rseed): {}".format(what, first_msg))
+    return labels
+
 
 def judge(gtype, tokens, build):
     """Outcome for the specification, obtained through build(tokens, tag) -> Obs / Rejected."""
@@ -314,55 +437,7 @@ def judge(gtype, tokens, build):
         labels += ['gray', 'gray-accepted']
 
     # 3. modifiers: some order of application must explain what came out
-    def explain(order):
-        prev = base.desc
-        step_labels = []
-        for j, (name, nums) in enumerate(order):
-            status, vals, marks = M.step_validity(name, nums, prev)
-            step_labels += ['{}:{}'.format(name, m) for m in sorted(marks)]
-            if status == 'invalid':
-                if full is None:
-                    if 'just-outside' in marks:
-                        step_labels.append('just-outside-rejected')
-                    return None, step_labels + ['rejected']
-                return "`{} {}` cannot be applied to {} but the specification is accepted".format(
-                    name, ' '.join(nums), prev.show()), None
-            if status == 'gray' and full is None:
-                return None, step_labels + ['gray', 'gray-rejected', 'rejected']
-            prefix = base_tokens + [t for n, ns in order[:j + 1] for t in [n] + list(ns)]
-            try:
-                nxt = build(prefix, 'p{}'.format(j))
-            except Rejected as e:
-                return "`{}` is a legal request on {} but `{}` is refused: {!r}".format(
-                    ' '.join([name] + list(nums)), prev.show(), ' '.join(prefix), str(e).splitlines()[0]), None
-            try:
-                M.check_step(name, vals, prev, nxt.desc)
-            except M.Mismatch as e:
-                return str(e), None
-            if vals and any(v for v in vals):
-                step_labels.append('modifier-nonzero')
-            prev = nxt.desc
-        if full is None:
-            return "every step is a legal request but the specification is refused: {!r}".format(full_msg), None
-        if not full.desc.same(prev):
-            return "under the same seed the specification gives {} but its modifiers applied one by one give {}".format(
-                full.desc.show(), prev.show()), None
-        return None, step_labels
-
-    documented = sorted(mods, key=lambda x: M.MODIFIERS[gtype].index(x[0]))
-    orders = [documented] + [list(p) for p in itertools.permutations(documented) if list(p) != documented]
-    first_msg = None
-    for i, order in enumerate(orders):
-        msg, step_labels = explain(order)
-        if msg is None:
-            labels += step_labels
-            if i > 0:
-                labels.append('explained-by-another-order')
-            break
-        if first_msg is None:
-            first_msg = msg
-    else:
-        raise Violation("{} (generator seeded with rseed): {}".format(what, first_msg))
+    labels += _chain(gtype, what, base.desc, base_tokens, mods, full, full_msg, build)
     if 'rejected' in labels:
         return Outcome(labels=labels, nontrivial=False, rejected=True)
     nontrivial = S.cons in M.RANDOM_CONSTRUCTIONS or 'modifier-nonzero' in labels
@@ -372,11 +447,147 @@ def judge(gtype, tokens, build):
 
 
 def run_spec(case):
+    if case.get('kind') == 'file':
+        return run_file(case)
     gtype, tokens, rseed = case['gtype'], [str(t) for t in case['tokens']], case['rseed']
     return judge(gtype, tokens, lib_builder(gtype, rseed, _tmpdir()))
 
 
+# ---------------------------------------------------------------------------
+# graph arguments read from a file written by the harness
+#
+# case: {'kind': 'file', 'gtype', 'graph': description of the graph (vlib.rd_graphs), 'ifmt', 'style',
+#        'name': name of the file, 'subdir': '' or a directory name, 'form': 'ext' (the file alone) | 'fmt'
+#        (`<format> <file>`), 'opts': the options in the order written, e.g. [['addedges', '2'],
+#        ['save', 'dot', 'g.graph']], 'rseed' [, 'cmd': sub-command and its arguments]}
+
+def _input_text(case):
+    gtype, ifmt, g, style = case['gtype'], case['ifmt'], case['graph'], case['style']
+    if ifmt in R.INHOUSE[gtype]:
+        text = R.write_inhouse(ifmt, gtype, g, style & 41)
+        if R.ref_read(ifmt, gtype, text).status != 'valid':
+            text = R.write_inhouse(ifmt, gtype, g, 0)
+        if R.ref_read(ifmt, gtype, text).status != 'valid':
+            raise ValueError("the harness wrote an input file that is not plainly valid: {!r}".format(text))
+        return text
+    if gtype == 'bipartite':
+        N, off, side = g['L'] + g['R'], g['L'], [0] * g['L'] + [1] * g['R']
+        order = list(range(N))          # the two ways to number the sides coincide
+    else:
+        N, off, side = g['n'], 0, None
+        order = list(range(N))
+        if style & 64:                  # node statements in another order: numbering follows the identifiers
+            random.Random(style * 1000 + N).shuffle(order)
+    doc = {'gtype': gtype, 'ids': list(range(1, N + 1)), 'order': order,
+           'edges': [[u - 1, v + off - 1] for u, v in g['edges']], 'side': side,
+           'style': style & (63 if ifmt == 'dot' else 31)}
+    return R.write_doc(ifmt, doc)
+
+
+def _name_classes(name):
+    out = []
+    if ' ' in name:
+        out.append('blank')
+    if "'" in name:
+        out.append('single-quote')
+    if '"' in name:
+        out.append('double-quote')
+    if not name.isascii():
+        out.append('non-ascii')
+    if name.startswith('.'):
+        out.append('leading-dot')
+    if name.count('.') >= 2:
+        out.append('several-dots')
+    if name.endswith('.'):
+        out.append('trailing-dot')
+    if any(ch in name for ch in '{}%#\\;,&$`'):
+        out.append('punctuation')
+    if '.' not in name:
+        out.append('no-extension')
+    return out or ['plain']
+
+
+def run_file(case):
+    import cnfgen.graphs
+    gtype, ifmt, g, rseed = case['gtype'], case['ifmt'], case['graph'], case['rseed']
+    if ifmt not in cnfgen.graphs.supported_graph_formats()[gtype]:
+        return Outcome(labels=['dot-not-available'], nontrivial=False)
+    if gtype == 'bipartite':
+        D0 = M.Desc('bipartite', [tuple(e) for e in g['edges']], L=g['L'], R=g['R'])
+    else:
+        D0 = M.Desc(gtype, [tuple(e) for e in g['edges']], n=g['n'])
+    text = _input_text(case)
+    opts = [[str(t) for t in o] for o in case['opts']]
+    mods = [(o[0], o[1:]) for o in opts if o[0] != 'save']
+    saves = [o for o in opts if o[0] == 'save']
+    labels = ['file', 'file/{}/{}'.format(gtype, ifmt), 'file-form:' + case['form']]
+    labels += ['file-name:' + c for c in _name_classes(case['name'])]
+    labels += ['opt-' + o[0] for o in opts]
+    if case.get('subdir'):
+        labels.append('file-in-subdirectory')
+    if case['form'] == 'fmt' and M.save_format(gtype, None, case['name']) not in (None, ifmt):
+        labels.append('file-extension-of-another-format')
+    if saves:
+        at = [i for i, o in enumerate(opts) if o[0] == 'save'][0]
+        labels.append('save-form:' + ('fmt' if len(saves[0]) == 3 else 'ext'))
+        labels.append('file-save/{}/{}'.format(gtype, M.save_format(gtype, saves[0][1] if len(saves[0]) == 3 else None, saves[0][-1])))
+        if not mods:
+            labels.append('save-without-modifier')
+        else:
+            labels.append('save-before-modifiers' if at == 0 else 'save-after-modifiers' if at == len(opts) - 1
+                          else 'save-between-modifiers')
+    if len(mods) >= 2 and [n for n, _ in mods] != [n for n in M.MODIFIERS[gtype] if n in [x for x, _ in mods]]:
+        labels.append('options-reordered')
+
+    top = tempfile.mkdtemp(prefix='file_', dir=_tmpdir())
+    try:
+        folder = os.path.join(top, case['subdir']) if case.get('subdir') else top
+        os.makedirs(folder, exist_ok=True)
+        path = os.path.join(folder, case['name'])
+        with open(path, 'w', encoding='utf-8') as f:
+            f.write(text)
+        head = [path] if case['form'] == 'ext' else [ifmt, path]
+        tokens = head + [t for o in opts for t in o]
+        if 'cmd' in case:
+            cmd = [str(t) for t in case['cmd']]
+            build = cli_builder(cmd, gtype, rseed, top, reread=True)
+            what = "cnfgen {} {}".format(' '.join(cmd), ' '.join(tokens))
+            labels += ['cmd-' + cmd[0], 'file-via-command-line']
+        else:
+            build = lib_builder(gtype, rseed, top, reread=True)
+            what = _spec_text(gtype, tokens)
+        # 1. the file alone is the graph the harness wrote
+        try:
+            base = build(head, 'b')
+        except Rejected as e:
+            raise Violation("{}: a valid {} file of a {} graph ({!r}) is refused: {!r}".format(
+                _spec_text(gtype, head), ifmt, gtype, text, str(e)[:300]))
+        if not base.desc.same(D0):
+            raise Violation("{}: the file {!r} holds {} but the graph argument gives {}".format(
+                _spec_text(gtype, head), text, D0.show(), base.desc.show()))
+        # 2. the whole argument; the files of `save` are compared with the graph in use inside build()
+        full_msg = ''
+        try:
+            full = build(tokens, 'f')
+        except Rejected as e:
+            full = None
+            full_msg = str(e).splitlines()[0] if str(e) else ''
+        if full is not None:
+            labels += full.labels
+        # 3. the graph in use is the graph of the file plus what the modifiers do
+        labels += _chain(gtype, what, D0, head, mods, full, full_msg, build)
+    finally:
+        shutil.rmtree(top, True)
+    if 'rejected' in labels:
+        return Outcome(labels=sorted(set(labels)), nontrivial=False, rejected=True)
+    if 'modifier-nonzero' in labels and saves and mods and labels.count('save-after-modifiers') == 0:
+        labels.append('save-not-last-with-effective-modifier')
+    return Outcome(labels=sorted(set(labels)), nontrivial=len(D0.edges) >= 1 and D0.order() >= 3)
+
+
 def run_cli(case):
+    if case.get('kind') == 'file':
+        return run_file(case)
     gtype, tokens, rseed = case['gtype'], [str(t) for t in case['tokens']], case['rseed']
     cmd = [str(t) for t in case['cmd']]
     out = judge(gtype, tokens, cli_builder(cmd, gtype, rseed, _tmpdir()))
@@ -794,6 +1005,142 @@ def enum_sweep(tier):
             yield {'gtype': gtype, 'tokens': toks, 'rseed': seed}
 
 
+# ---- graph arguments read from files written by the harness, with modifiers and `save`
+
+FILE_STEMS = ['g', 'two words', ' lead and trail ', "it's", "'q'", 'say "hi"', '"', 'a\'b"c', 'a.b', 'v1.2..3',
+              '.hidden', 'g.gml', 'grafo_è', 'γράφος', 'граф №1',
+              '{0}%s#x\\y;z', 'ünï cödé.v2']
+FILE_MODSETS = {
+    'simple': [[], ['plantclique'], ['addedges'], ['splitedges'], ['plantclique', 'addedges'], ['addedges', 'splitedges'],
+               ['plantclique', 'splitedges'], ['plantclique', 'addedges', 'splitedges'], ['addedges'], ['splitedges', 'addedges'],
+               ['splitedges', 'addedges', 'plantclique']],
+    'bipartite': [[], ['plantbiclique'], ['addedges'], ['plantbiclique', 'addedges'], ['addedges', 'plantbiclique'],
+                  ['addedges'], ['plantbiclique', 'addedges']],
+    'dag': [[]],
+    'digraph': [[]],
+}
+FILE_STYLES = [0, 1, 8, 32, 41, 2, 4, 16, 3, 64, 0, 33, 9, 96]
+FILE_CMDS = {
+    'simple': [['kcolor', '3'], ['domset', '2'], ['kcolor', '2']],
+    'bipartite': [['php'], ['php', '--functional'], ['php', '--onto'], ['php', '--functional', '--onto']],
+    'dag': [['peb']],
+}
+
+
+def _file_graph(rnd, gtype):
+    p = rnd.choice([0.0, 0.3, 0.3, 0.6, 0.6, 1.0])
+    if gtype == 'bipartite':
+        L, Rr = rnd.choice([1, 2, 3, 3, 4]), rnd.choice([1, 2, 3, 4, 4])
+        pairs = [(u, v) for u in range(1, L + 1) for v in range(1, Rr + 1)]
+        return R.make_desc(gtype, L=L, R=Rr, edges=[e for e in pairs if rnd.random() < p])
+    n = rnd.choice([1, 2, 3, 4, 4, 5, 5, 6, 7])
+    if gtype == 'digraph':
+        n = min(n, 6)
+        pairs = [(u, v) for u in range(1, n + 1) for v in range(1, n + 1) if u != v]
+        p = p / 2
+    else:
+        pairs = [(u, v) for u in range(1, n + 1) for v in range(u + 1, n + 1)]
+    return R.make_desc(gtype, n=n, edges=[e for e in pairs if rnd.random() < p])
+
+
+def _file_number(rnd, hi, small):
+    """an argument of a modifier whose legal range is 0..hi"""
+    if rnd.random() < 0.06:
+        return hi + 1
+    if small:
+        hi = min(hi, 2)
+    return min(hi, rnd.choice([0, 1, 1, 2, 2, 3, hi // 2, hi, hi]))
+
+
+def _file_case(rnd, k, rep, gtype, ifmt, ofmt, via):
+    g = _file_graph(rnd, gtype)
+    fmts = M.FORMATS[gtype]
+    others = [f for f in fmts if f != ifmt]
+    form = 'ext' if (k + rep) % 2 == 0 else 'fmt'
+    idx = 5 * k + rep
+    stem = FILE_STEMS[idx % len(FILE_STEMS)]
+    while gtype == 'bipartite' and ofmt == 'dot' and '"' in stem:        # see ASSUMPTIONS
+        idx += 1
+        stem = FILE_STEMS[idx % len(FILE_STEMS)]
+    if form == 'ext':
+        name = stem + '.' + ifmt
+    else:
+        v = (k // 2 + rep) % 6
+        name = [stem + '.' + ifmt, stem, stem + '.' + others[k % len(others)], stem + '.', '.' + ifmt, stem + '.txt'][v]
+    subdir = ['', '', 'sub dir.' + others[rep % len(others)], ''][(k // 3 + rep) % 4]
+    # modifiers, in the documented order or not, with numbers that fit the graph of the file (mostly)
+    msets = FILE_MODSETS[gtype]
+    mset = msets[(k // len(fmts) + 3 * rep) % len(msets)]
+    if via == 'cli' and len(mset) > 2:
+        mset = mset[:2]
+    mods = []
+    if gtype == 'bipartite':
+        missing, present = g['L'] * g['R'] - len(g['edges']), len(g['edges'])
+    else:
+        missing, present = g['n'] * (g['n'] - 1) // 2 - len(g['edges']), len(g['edges'])
+    for name_ in mset:
+        if name_ == 'plantclique':
+            nums = [_file_number(rnd, g['n'], False)]
+        elif name_ == 'plantbiclique':
+            nums = [_file_number(rnd, g['L'], False), _file_number(rnd, g['R'], False)]
+        elif name_ == 'addedges':
+            nums = [_file_number(rnd, missing, len(mset) > 1 and rnd.random() < 0.7)]
+        else:
+            nums = [_file_number(rnd, present, False)]
+        mods.append([name_] + [str(x) for x in nums])
+    # `save`: both forms, before / between / after the modifiers
+    sform = 'ext' if (k // 2 + rep) % 2 == 0 else 'fmt'
+    if sform == 'ext':
+        save = ['save', ['g.' + ofmt, 'out put.' + ofmt, 'salida_ñ.v2.' + ofmt][(k + rep) % 3]]
+    else:
+        save = ['save', ofmt, ['g.graph', 'g.' + ifmt, 'g', 'g.' + ofmt, 'out put.' + others[0]][(k + 2 * rep) % 5]]
+    pos = (k // 4 + rep) % (len(mods) + 1)
+    opts = mods[:pos] + [save] + mods[pos:]
+    case = {'kind': 'file', 'gtype': gtype, 'graph': g, 'ifmt': ifmt, 'style': FILE_STYLES[(k + rep) % len(FILE_STYLES)],
+            'name': name, 'subdir': subdir, 'form': form, 'opts': opts, 'rseed': rnd.randrange(2 ** 32)}
+    if via == 'cli':
+        case['cmd'] = FILE_CMDS[gtype][(k + rep) % len(FILE_CMDS[gtype])]
+    return case
+
+
+def file_cases(tier, via):
+    """every graph type x every input format x every `save` format, `reps` times with the other dimensions
+    (file name, form of the argument, modifiers and their order, form and position of `save`, style of the
+    input file) cycling so that each combination meets each of them within a few repetitions"""
+    reps = {('spec', 'quick'): 6, ('spec', 'thorough'): 170, ('cli', 'quick'): 2, ('cli', 'thorough'): 51}[(via, tier)]
+    rnd = random.Random(1507 if via == 'spec' else 1511)
+    types = R.TYPES if via == 'spec' else ('simple', 'bipartite', 'dag')
+    for rep in range(reps):
+        k = 0
+        for gtype in types:
+            for ifmt in M.FORMATS[gtype]:
+                for ofmt in M.FORMATS[gtype]:
+                    yield _file_case(rnd, k, rep, gtype, ifmt, ofmt, via)
+                    k += 1
+
+
+def enum_files_spec(tier):
+    return file_cases(tier, 'spec')
+
+
+def enum_files_cli(tier):
+    return file_cases(tier, 'cli')
+
+
+_FILE_LABELS = (['file/{}/{}'.format(t, f) for t in M.TYPES for f in M.FORMATS[t]]
+                + ['file-save/{}/{}'.format(t, f) for t in M.TYPES for f in M.FORMATS[t]]
+                + ['reread-by-tree/' + f for f in M.ALL_FORMATS]
+                + ['file-form:ext', 'file-form:fmt', 'save-form:ext', 'save-form:fmt', 'save-without-modifier',
+                   'save-before-modifiers', 'save-between-modifiers', 'save-after-modifiers',
+                   'save-not-last-with-effective-modifier', 'file-in-subdirectory', 'file-extension-of-another-format']
+                + ['file-name:' + c for c in ('blank', 'single-quote', 'double-quote', 'non-ascii', 'leading-dot', 'several-dots',
+                                              'trailing-dot', 'punctuation', 'no-extension', 'plain')])
+_FILE_LABELS_CLI = (['file/{}/{}'.format(t, f) for t in ('simple', 'bipartite', 'dag') for f in M.FORMATS[t]]
+                    + ['file-save/{}/{}'.format(t, f) for t in ('simple', 'bipartite', 'dag') for f in M.FORMATS[t]]
+                    + ['file-via-command-line', 'file-form:ext', 'file-form:fmt', 'save-form:ext', 'save-form:fmt',
+                       'save-before-modifiers', 'save-after-modifiers', 'file-name:blank', 'file-name:single-quote',
+                       'file-name:double-quote', 'file-name:non-ascii', 'file-name:several-dots', 'reread-by-tree'])
+
 _CONS_LABELS = ['{}/{}'.format(t, c) for t in M.TYPES for c in M.CONSTRUCTIONS[t]]
 _SAVE_LABELS = ['saved/{}/{}'.format(t, f) for t in M.TYPES for f in M.FORMATS[t]]
 
@@ -804,20 +1151,20 @@ SUBCHECKS = [
                                              'just-outside-rejected', 'impossible', 'd=R', 'd=0', 'dimension-1', 'dimension-2',
                                              't-partite', 'multipartite', 'p=0', 'p=1', 'offset=R', 'arity', 'no-dimension',
                                              'gnd-N=d', 'gnd-N=d+1']),
-    SubCheck('options', run_spec, strategy=strat_spec, quick=4000, thorough=480000,
-             rule="construction with boundary arguments followed by any subset of the options valid for the type (plantclique / plantbiclique / addedges / splitedges with arguments inside, at and just outside what the graph allows; save in every format, explicit or by extension, unknown extension, missing file) in any order, plus foreign constructions/options, wrong arities, repeated options, odd number spellings; oracle: chain of step relations against the same specification without the later modifiers under the same seed, saved file read by the harness's readers equals the returned graph; non-trivial: accepted random construction or a modifier with a non-zero argument",
+    SubCheck('options', run_spec, strategy=strat_spec, enumerate_cases=enum_files_spec, quick=4000, thorough=480000,
+             rule="(a) enumerated: graph arguments READ FROM A FILE written by the harness, for every graph type (simple, digraph, dag, bipartite) x every input format of the type (kthlist, gml, dot, dimacs / matrix; harness-side writers, several layouts) x every `save` format of the type, 6 (thorough: 170) rounds in which the other dimensions cycle: file names with blanks, single and double quotes, several / leading / trailing dots, the extension of another format, non-ASCII letters, punctuation, a directory whose name ends like an extension; `<file>` (format from the extension) and `<format> <file>` (no, unknown or misleading extension); every subset of the modifiers the type allows, in the documented order or another, with numbers that fit the graph of the file (6%: one too many); `save <out.ext>` and `save <format> <out>` (output names with blanks, non-ASCII letters, the extension of the input format) written before, between and after the modifiers. Oracle: the file alone gives exactly the graph the harness wrote; wherever `save` stands, the saved file -- read by the harness's reference readers and given back to the tree as a graph argument -- is exactly the graph returned, and that graph is the file's graph plus the step relations of the modifiers (addedges k: k new edges, old ones and vertices kept; splitedges k: k vertices and k edges more, each new vertex subdivides one old edge; plantclique/plantbiclique: old edges kept, the new ones complete a clique of the requested size), refusal exactly when a number does not fit; non-trivial: file graph with an edge and >= 3 vertices. (b) generated: construction with boundary arguments followed by any subset of the options valid for the type (plantclique / plantbiclique / addedges / splitedges with arguments inside, at and just outside what the graph allows; save in every format, explicit or by extension, unknown extension, missing file) in any order, plus foreign constructions/options, wrong arities, repeated options, odd number spellings; oracle: chain of step relations against the same specification without the later modifiers under the same seed, saved file read by the harness's readers equals the returned graph; non-trivial: accepted random construction or a modifier with a non-zero argument",
              required_labels=_CONS_LABELS + _SAVE_LABELS + ['opt-plantclique', 'opt-plantbiclique', 'opt-addedges', 'opt-splitedges',
                                                            'opt-save', 'saved', 'options>=2', 'options-reordered', 'modifier-nonzero',
                                                            'just-outside-rejected', 'at-limit-accepted', 'dense-path', 'sparse-path',
                                                            'save-unknown-format', 'gray-accepted', 'foreign-construction',
                                                            'plantclique:at-limit', 'addedges:at-limit', 'splitedges:at-limit',
                                                            'plantbiclique:at-limit', 'addedges:just-outside', 'splitedges:just-outside',
-                                                           'plantclique:just-outside', 'plantbiclique:just-outside']),
+                                                           'plantclique:just-outside', 'plantbiclique:just-outside'] + _FILE_LABELS),
     SubCheck('sweep', run_spec, enumerate_cases=enum_sweep, quick=0, thorough=0,
              rule="fixed small specifications of the samplers with retry loops and fall-backs (regular, glrm at the sparse/dense switch, gnd, addedges up to the complete graph, modifier chains) under every seed 0..N-1 (N between 100 and 12000, thorough up to 180000); same oracle; non-trivial: every accepted case",
              required_labels=['bipartite/regular', 'bipartite/glrm', 'simple/gnd', 'opt-addedges', 'dense-path', 'sparse-path']),
-    SubCheck('cli', run_cli, strategy=strat_cli, quick=320, thorough=24000,
-             rule="the same specifications after `cnfgen kcolor k | domset d | php [--functional] [--onto] | peb`, run in-process; the graph is the one found in the file written by `save` (the harness appends `save kthlist <file>` when the case has none); oracle: CLIError exactly when the model says refusal, same structure predicates and step relations on the saved graphs, and the clauses and variable names of the formula equal the library formula built on the saved graph; non-trivial as above",
+    SubCheck('cli', run_cli, strategy=strat_cli, enumerate_cases=enum_files_cli, quick=320, thorough=24000,
+             rule="(a) enumerated: the graph arguments read from harness-written files of sub-check `options` (simple, bipartite, dag x every input format x every `save` format, 2 (thorough: 51) rounds, at most two modifiers, odd file names, both forms of the argument and of `save`, `save` before / between / after the modifiers) after `cnfgen kcolor k | domset d | php [--functional] [--onto] | peb`, in-process; oracle: as there, the graphs being the ones found in the saved files, and the formula equals the library formula on the saved graph, the saved file given back as a graph argument is that graph. (b) generated: the same specifications after `cnfgen kcolor k | domset d | php [--functional] [--onto] | peb`, run in-process; the graph is the one found in the file written by `save` (the harness appends `save kthlist <file>` when the case has none); oracle: CLIError exactly when the model says refusal, same structure predicates and step relations on the saved graphs, and the clauses and variable names of the formula equal the library formula built on the saved graph; non-trivial as above",
              required_labels=['cmd-kcolor', 'cmd-php', 'cmd-peb', 'cmd-domset', 'saved', 'rejected', 'modifier-nonzero',
-                              'opt-plantclique', 'opt-plantbiclique', 'opt-addedges', 'opt-splitedges']),
+                              'opt-plantclique', 'opt-plantbiclique', 'opt-addedges', 'opt-splitedges'] + _FILE_LABELS_CLI),
 ]
